@@ -269,6 +269,13 @@ printf("debug> #if eval_operation() @EOL  n=%d precedence=%d state=%d\n", n, pre
           else
         if (IS_TOKEN(token,'('))
         {
+          // Every '(' is a recursive call.
+          if (paren_count >= 128)
+          {
+            print_error(asm_context, "Parentheses nested too deeply");
+            return -1;
+          }
+
           if (parse_ifdef_expression(asm_context, &n, paren_count + 1, PREC_OR, 0) == -1)
           {
             return -1;
